@@ -1162,21 +1162,23 @@ def d4_chunk(ctx):
     if okt:
         blank = set()
         for n in if_nodes(tcfg):
-            k = empty_edge(n.stmt.test, '%s.strip()' % tl)
-            if k is None and isinstance(n.stmt.test, ast.Compare) and len(n.stmt.test.ops) == 1 and isinstance(n.stmt.test.ops[0], ast.In) \
-                    and norm_text(n.stmt.test.left) == tl:
-                try:
-                    vals = set(repo.fold(t.module, n.stmt.test.comparators[0]))
-                except (ValueError, TypeError):
-                    vals = set()
-                if {b'\r\n', b'\n'} <= vals <= {b'\r\n', b'\n', b''}:
-                    k = 'T'
+            k = blank_line_edge(repo, t.module, n.stmt.test, tl)
             if k:
                 blank.add((n.id, k))
         p = path_avoiding(tcfg, trl[0], lambda m: m is tcfg.exit, banned=blank)
         okt = bool(blank) and p is None
+    if tl is not None:
+        # a trailer cut off by the peer (EOF: a line without LF, possibly empty) is an error, like a header cut off
+        from ..dtable import same_bool as _sb
+        lfs = [n for n in if_nodes(tcfg) if _sb(U.canon_suffix_tests(n.stmt.test), "not %s.endswith(b'\\n')" % tl)
+               and n.stmt.body and isinstance(n.stmt.body[-1], ast.Raise)]
+        pl_ = path_avoiding(tcfg, trl[0], lambda m: m is tcfg.exit or m is trl[0], stop=lambda m: m in lfs) if lfs else [(trl[0], '')]
+        ck.expect(bool(lfs) and pl_ is None, 'C08-D4', t.qual, "if not %s.endswith(b'\\n'): raise, for every trailer line" % tl,
+                  'a chunked message cut off inside the trailer (readline() returns a line without LF, or b\'\' at EOF) is not reported '
+                  'as an error: it ends the trailer and the download counts as complete', t.loc(trl[0].stmt))
     ck.expect(okt, 'C08-D4', t.qual, 'trailer lines are read with readline() until the blank line',
-              'read_trailer can stop before the blank line that ends the message: the rest is parsed as the next response', t.loc(),
+              'read_trailer can stop before the blank line that ends the message (`not line.strip()` also stops at a whitespace-only '
+              'line and at EOF): the rest is parsed as the next response', t.loc(),
               path=describe_path(p) if p else None)
     # ------------------------------------------------------------ Stream._read_body_by_chunk
     s = repo.func(STREAM + ':Stream._read_body_by_chunk')
@@ -1250,6 +1252,34 @@ def _delivered_chunk(ctx, f, cfg, B, content):
 
 
 # =============================================================================== D5
+def blank_line_edge(repo, module, test, var):
+    """Edge ('T'/'F') of `test` on which `var` is exactly a blank line - CRLF or a bare LF, nothing else.  `not var.strip()`
+    is NOT such a test: it is also true for a whitespace-only line (an empty folded continuation) and for b'' (EOF)."""
+    neg = False
+    t = test
+    while isinstance(t, ast.UnaryOp) and isinstance(t.op, ast.Not):
+        neg = not neg
+        t = t.operand
+    if isinstance(t, ast.Compare) and len(t.ops) == 1 and isinstance(t.ops[0], (ast.In, ast.NotIn)) and norm_text(t.left) == var:
+        try:
+            vals = set(repo.fold(module, t.comparators[0]))
+        except (ValueError, TypeError):
+            return None
+        if vals == {b'\r\n', b'\n'}:
+            pos = isinstance(t.ops[0], ast.In)
+            return 'T' if pos != neg else 'F'
+        return None
+    from ..dtable import same_bool
+    try:
+        if same_bool(t, "%s == b'\\r\\n' or %s == b'\\n'" % (var, var)):
+            return 'F' if neg else 'T'
+        if same_bool(t, "%s != b'\\r\\n' and %s != b'\\n'" % (var, var)):
+            return 'T' if neg else 'F'
+    except Exception:
+        return None
+    return None
+
+
 def d5_header(ctx):
     repo, ck = ctx.repo, ctx.check
     f = repo.func(STREAM + ':Stream.read_response')
@@ -1293,19 +1323,13 @@ def d5_header(ctx):
     blank = set()
     for n in if_nodes(cfg):
         t = n.stmt.test
-        k = empty_edge(t, '%s.strip()' % data)
-        if k is None and isinstance(t, ast.Compare) and len(t.ops) == 1 and isinstance(t.ops[0], (ast.In, ast.NotIn)) and norm_text(t.left) == data:
-            try:
-                vals = set(repo.fold(f.module, t.comparators[0]))
-            except (ValueError, TypeError):
-                vals = set()
-            if vals == {b'\r\n', b'\n'}:
-                k = 'T' if isinstance(t.ops[0], ast.In) else 'F'
+        k = blank_line_edge(repo, f.module, t, data)
         if k:
             blank.add((n.id, k))
     p = path_avoiding(cfg, rl, lambda m: m is after or m is cfg.exit, banned=blank, stop=lambda m: m is rl)
     ck.expect(bool(blank) and p is None, 'C08-D5', f.qual, 'the header loop ends only at the blank line (CRLF or LF)',
-              'the header block can end before (or never at) the blank line: the body would start at the wrong byte', f.loc(loop),
+              'the header block can end before (or never at) the blank line - a test such as `not line.strip()` also ends it at a '
+              'whitespace-only continuation line: the body would start at the wrong byte', f.loc(loop),
               path=describe_path(p) if p else None)
     # every non-blank line is collected and counted; the block is capped
     okapp = len(apps) == 1
